@@ -17,6 +17,7 @@ import (
 	"sort"
 	"strings"
 	"sync"
+	"syscall"
 	"testing"
 
 	"github.com/tailscale/setec/acl"
@@ -589,7 +590,28 @@ func concurrentScenarios(thorough bool) []hx.Scenario {
 			out = append(out, hx.Scenario{Name: fmt.Sprintf("%v || %v", a, b), Make: concScenario([][]Op{a, b})})
 		}
 	}
+	// a failing fsync among overlapping requests: no caller may go ahead on a record that only a failed fsync covered
+	fops := []Op{ops[0], ops[1], ops[3]}
+	for i, a := range fops {
+		for _, b := range fops[i:] {
+			for f := 1; f <= 2; f++ {
+				out = append(out, hx.Scenario{Name: fmt.Sprintf("fsync %d fails: %v || %v", f, a, b), Make: concScenarioF([][]Op{{a}, {b}}, f)})
+			}
+		}
+	}
+	for f := 1; f <= 3; f++ {
+		out = append(out, hx.Scenario{Name: fmt.Sprintf("fsync %d fails: 3 clients get || get || put", f), Make: concScenarioF([][]Op{{ops[0]}, {ops[0]}, {ops[1]}}, f)})
+	}
 	if thorough {
+		for i := range fops {
+			for j := i; j < len(fops); j++ {
+				for k := j; k < len(fops); k++ {
+					for f := 1; f <= 3; f++ {
+						out = append(out, hx.Scenario{Name: fmt.Sprintf("fsync %d fails: 3 clients: %v || %v || %v", f, fops[i], fops[j], fops[k]), Make: concScenarioF([][]Op{{fops[i]}, {fops[j]}, {fops[k]}}, f)})
+					}
+				}
+			}
+		}
 		for i := range ops {
 			for j := i; j < len(ops); j++ {
 				for k := j; k < len(ops); k++ {
@@ -601,8 +623,14 @@ func concurrentScenarios(thorough bool) []hx.Scenario {
 	return out
 }
 
-func concScenario(progs [][]Op) func() *sched.Harness {
+func concScenario(progs [][]Op) func() *sched.Harness { return concScenarioF(progs, 0) }
+
+// concScenarioF is concScenario with the failSync-th fsync of the audit file failing (0: none).  The oracle is
+// unchanged: a failed fsync makes nothing durable, so any call that still returns a value, a mutation or a
+// denial must have had its record covered by a later fsync that succeeded.
+func concScenarioF(progs [][]Op, failSync int) func() *sched.Harness {
 	return func() *sched.Harness {
+		var syncN int
 		var dir string
 		var d *db.DB
 		var aw *audit.Writer
@@ -638,6 +666,7 @@ func concScenario(progs [][]Op) func() *sched.Harness {
 				os.Truncate(apath, 0)
 				// durability model of the audit file: a completed fsync makes durable whatever the file held when it started
 				durable, syncStart = 0, map[*vos.Call]int64{}
+				syncN = 0
 				vos.SetHook(&hx.GateFS{Filter: func(c *vos.Call) bool {
 					return filepath.Base(c.Path) == "audit.log" && (c.Op == "write" || c.Op == "sync")
 				}, OnCall: func(c *vos.Call) {
@@ -645,6 +674,10 @@ func concScenario(progs [][]Op) func() *sched.Harness {
 						fi, _ := os.Stat(apath)
 						mu.Lock()
 						syncStart[c] = fi.Size()
+						syncN++
+						if syncN == failSync {
+							c.Err = syscall.EIO
+						}
 						mu.Unlock()
 					}
 				}, OnDone: func(c *vos.Call, err error) {
@@ -699,7 +732,9 @@ func concScenario(progs [][]Op) func() *sched.Harness {
 					need := false
 					switch {
 					case r.res.class == model.Denied:
-						need = true
+						// a refusal that also reports that its record could not be written is the failing request of
+						// the statement's second sentence (no value, no change), not a refusal that claims a record
+						need = !strings.Contains(r.res.err, "writing audit log")
 					case r.res.hasValue && (r.op.Kind == "get" || r.op.Kind == "getcond"):
 						need = true
 					case r.res.class == model.OK && (r.op.Kind == "put" || r.op.Kind == "delete" || r.op.Kind == "activate" || r.op.Kind == "delver"):
